@@ -265,7 +265,8 @@ class Component(CaselessDict):
         :returns: None
         """
         if isinstance(value, datetime) and\
-                name.lower() in ('dtstamp', 'created', 'last-modified'):
+                name.lower() in ('dtstamp', 'created', 'last-modified',
+                                 'acknowledged'):
             # RFC expects UTC for those... force value conversion.
             value = tzp.localize_utc(value)
 
